@@ -5,6 +5,7 @@ package main
 
 import (
 	"fmt"
+	"go/types"
 
 	"golang.org/x/tools/go/ssa"
 )
@@ -103,4 +104,49 @@ func (w *World) nilUses(fns []*ssa.Function) []nilUse {
 
 func nilUseCons(w *World, u nilUse) string {
 	return fmt.Sprintf("%s#nil-then-use@%s", w.funcKey(u.fn), u.what)
+}
+
+// optionalMemberInvokes: method calls on a value read from a struct field whose type is one of the stanza package's
+// interfaces (StanzaErrorGroup, IQPayload, MsgExtension, …). Such a member of a decoded element is nil whenever the
+// peer's element simply lacks that child, so the call must be behind a nil test of the same field on every path.
+type memberInvoke struct {
+	fn      *ssa.Function
+	call    *ssa.Call
+	field   string
+	guarded bool
+}
+
+func (w *World) optionalMemberInvokes(fns []*ssa.Function) []memberInvoke {
+	var out []memberInvoke
+	for _, fn := range fns {
+		allInstrs(fn, func(in ssa.Instruction) {
+			c, ok := in.(*ssa.Call)
+			if !ok || !c.Call.IsInvoke() {
+				return
+			}
+			v := c.Call.Value
+			f, _ := loadedField(v)
+			if f == nil {
+				return
+			}
+			nt, ok := f.Type().(*types.Named)
+			if !ok || nt.Obj().Pkg() == nil || nt.Obj().Pkg().Path() != pkgStanza {
+				return
+			}
+			if _, isIface := nt.Underlying().(*types.Interface); !isIface {
+				return
+			}
+			nonNil := edgesAsserting(fn, func(cv ssa.Value, truth bool) bool {
+				x, eq, ok := nilCompare(cv)
+				if !ok || eq == truth {
+					return false
+				}
+				g, _ := loadedField(x)
+				return g == f && (x == v || sameValue(x, v))
+			})
+			guarded := len(nonNil) > 0 && !reachable(entryLoc(fn), func(x ssa.Instruction) bool { return x == in }, nil, nonNil)
+			out = append(out, memberInvoke{fn, c, f.Name(), guarded})
+		})
+	}
+	return out
 }
